@@ -165,7 +165,28 @@ func TestVF_C04_Progress(t *testing.T) {
 				m = int32(dist + 1)
 				sparseShort = false
 			}
+			// a ranged GET fails once (S3 rejects/throttles Range requests) in a fifth of the
+			// cold reads; an error answer is fine (the consumer retries), an answer is judged
+			rangeFault := path != "cached" && path != "buffered-tail" && rapid.IntRange(0, 4).Draw(t, "rangefault") == 0
+			if rangeFault {
+				armed := true
+				obj.Fault = func(op vfkit.ObjOp) vfkit.FaultKind {
+					if armed && op.Kind == "get-segment-range" {
+						armed = false
+						return vfkit.FaultBefore
+					}
+					return vfkit.FaultNone
+				}
+			}
 			got, err := plog.Read(ctx, o, m)
+			obj.Fault = nil
+			if err != nil && rangeFault {
+				st.Class("ranged-get-failed-read-answered-error")
+				continue
+			}
+			if rangeFault {
+				st.Class("ranged-get-fault-armed-read-answered-data")
+			}
 			if err != nil {
 				t.Fatalf("read(offset=%d,maxBytes=%d) below the end offset %d failed: %v (path %s, interval %d)", o, m, ref.end(), err, path, interval)
 			}
